@@ -21,6 +21,12 @@ def canon_walk(root):
             continue
         seen[id(o)] = len(order)
         order.append(o)
+        cb = vars(o).get("cb")
+        if callable(cb):                       # a stored callback that hands back a graph object: follow it
+            try:
+                stack.append(cb())
+            except Exception:  # noqa: BLE001
+                pass
         # through the PUBLIC accessors (what a user of the copy sees; robust against renamed private fields)
         for attr in ("vertices", "links", "universes"):
             try:
@@ -41,6 +47,7 @@ def canon_walk(root):
 
 
 def snapshot(root):
+    from edgegraph.structure.base import BaseObject
     seen, order = canon_walk(root)
 
     def ids(lst):
@@ -62,7 +69,14 @@ def snapshot(root):
         for k, v in vars(o).items():
             if k.startswith("_"):
                 continue
-            extra[k] = repr(v) if not isinstance(v, (int, str, float, bool, type(None))) else v
+            if callable(v) and not isinstance(v, type):
+                try:
+                    r = v()                              # a stored callback: compared by what it answers
+                    extra[k] = ["call", seen.get(id(r), -1) if isinstance(r, BaseObject) else r]
+                except Exception as e:  # noqa: BLE001
+                    extra[k] = ["call raises", type(e).__name__]
+            else:
+                extra[k] = repr(v) if not isinstance(v, (int, str, float, bool, type(None))) else v
         d["attrs"] = extra
         out.append(d)
     return out
